@@ -67,7 +67,7 @@ pub fn run_prop(p: &dyn Prop, cases: Vec<Case>, threads: usize) -> Agg {
                     let i = next.fetch_add(1, Ordering::SeqCst);
                     if i >= n { break; }
                     let c = &cases[i];
-                    let o = p.run(c, &mut m);
+                    let o = run_case(p, c, &mut m);
                     let mut fl: Option<Failure> = None;
                     if fails(&o) {
                         let is_oracle = o.oracle_fail.is_some();
@@ -79,7 +79,7 @@ pub fn run_prop(p: &dyn Prop, cases: Vec<Case>, threads: usize) -> Agg {
                         'outer: while do_shrink && rounds < 40 {
                             rounds += 1;
                             for cand in p.shrink(&cur) {
-                                let oc = p.run(&cand, &mut m);
+                                let oc = run_case(p, &cand, &mut m);
                                 if fails(&oc) && oc.oracle_fail.is_some() == cur_o.oracle_fail.is_some() { cur = cand; cur_o = oc; continue 'outer; }
                             }
                             break;
@@ -121,4 +121,15 @@ pub fn render(p: &dyn Prop, tier: &str, seed: u64, a: &Agg, wall: f64) -> String
         .n("distinct_nontrivial", a.nontrivial.len() as u64).s("rule", &p.rule()).raw("distribution", jmap(&a.dist))
         .raw("samples", jarr(&a.samples)).n("traces_validated_against_impl", a.validated).n("model_queries", a.model_queries)
         .raw("aux", jarr(&a.aux.iter().map(|x| jstr(x)).collect::<Vec<_>>())).raw("failures", jarr(&fails)).raw("wall_s", format!("{:.2}", wall)).render()
+}
+
+/// one case, plus the check every property shares: the implementation is a function of its inputs — the same call, made twice on the
+/// same thread after different related calls, gives the same result (see `imp`: history priming)
+pub fn run_case(p: &dyn Prop, c: &Case, m: &mut crate::model::Model) -> Outcome {
+    let _ = crate::imp::take_instability();
+    let mut o = p.run(c, m);
+    if let Some(d) = crate::imp::take_instability() {
+        if o.oracle_fail.is_none() { o.oracle_fail = Some(("same-call-same-result".into(), d)); }
+    }
+    o
 }
